@@ -4,6 +4,7 @@
 -/
 import ChialispModel.Drv.Base
 import ChialispModel.Drv.Conv
+import ChialispModel.Drv.Core2Drv
 import ChialispModel.Drv.ReplLine
 import ChialispModel.Drv.ClassicEnv
 import ChialispModel.Drv.Passes
@@ -31,6 +32,7 @@ def main (args : List String) : IO UInt32 := do
   | ["passes"] => Drv.PassesDrv.run; return 0
   | ["classicenv"] => Drv.ClassicEnv.run; return 0
   | ["replline"] => Drv.ReplLine.run; return 0
+  | ["core2"] => Drv.Core2Drv.run; return 0
   | ["conv"] => Drv.Conv.run; return 0
   | ["src"] => Drv.Src.run; return 0
   | ["entry"] => Drv.Entry.run; return 0
